@@ -167,6 +167,20 @@ def iv_pair(acc, mods, kind, fa, fb, z=None):
     rc = iv_components(rv)
     if rc != {k: -v for k, v in comp.items()}:
         acc.mismatch("interval", f"{kind}/reversed", case, rc, {k: -v for k, v in comp.items()})
+    if kind != "date":
+        # the same subtraction with a native operand on either side
+        na = dt_.datetime(*fa, tzinfo=a.tzinfo, fold=a.fold)
+        nb = dt_.datetime(*fb, tzinfo=b.tzinfo, fold=b.fold)
+        for lbl, fn in (("pendulum-minus-native", lambda: b - na), ("native-minus-pendulum", lambda: nb - a)):
+            acc.c["evaluations"] += 1
+            acc.c["transitions"] += 1
+            try:
+                iv2 = fn()
+                got = (iv_components(iv2), obs.td_us(iv2)) if isinstance(iv2, pendulum.Interval) else type(iv2).__name__
+            except Exception as e:  # noqa: BLE001
+                got = f"raises {type(e).__name__}"
+            if got != (comp, obs.td_us(iv)):
+                acc.mismatch("interval", f"{kind}/{lbl}", case, got, [comp, obs.td_us(iv)])
 
 
 def cross_zone_pair(acc, mods, za, ia, zb, ib):
